@@ -110,4 +110,9 @@ theorem algFeasible_interval (M : List (List K)) (lims c s : List K) (vt rt : K)
       field_simp; ring
     rwa [e] at key
 
+/-- the hypotheses are satisfiable: station 0 at 0 A and at 10 A are both feasible -/
+example : algFeasible [[(1 : ℚ), -1, 0]] [20] [1, 0, 3/5] [0, 1, 4/5] (1/100) 0 ([5, 12, 3].set 0 0) = true ∧
+    algFeasible [[(1 : ℚ), -1, 0]] [20] [1, 0, 3/5] [0, 1, 4/5] (1/100) 0 ([5, 12, 3].set 0 10) = true := by
+  decide +kernel
+
 end Acn.Feas
